@@ -155,7 +155,7 @@ func runC13(c *Ctx) {
 		base := new(big.Int).SetBytes(r.Bytes(30))
 		var mu sync.Mutex
 		var hits []kxCase
-		Par(1200, func(j int) {
+		Par(4000, func(j int) {
 			mu.Lock()
 			enough := len(hits) >= 2
 			mu.Unlock()
@@ -176,6 +176,7 @@ func runC13(c *Ctx) {
 			}
 		}
 		rep.Count("derived_key_all_zero_cases", int64(len(hits)))
+		rep.Require("derived_key_all_zero_cases", 1)
 	}
 
 	// related long-term and ephemeral keys: d = x-bar(R) * r mod n makes P = [x-bar]R, so the other party's P + [x-bar]R
